@@ -61,75 +61,80 @@ Definition eq_key (s t : sty) : string :=
 
 Definition eres := outcome (bool * list string).
 
-Fixpoint eq_ty (fuel : nat) (D : tenv) (s t : sty) (memo : list string) : eres :=
-  match fuel with
-  | O => Hang "EqualType"
-  | S f =>
-    if negb (same_ctor s t) && negb (is_name s) && negb (is_name t) then Ok (false, memo)
-    else if is_name s || is_name t then
-      let key := eq_key s t in
-      if str_mem key memo then Ok (true, memo)
-      else
-        match s, t with
-        | TName x m, TName y m' =>
-          if String.eqb x y then Ok (mode_eqb m m', memo)
-          else match tlookup D x, tlookup D y with
-               | Some d1, Some d2 => eq_ty f D (td_body d1) (td_body d2) (key :: memo)
-               | _, _ => Ok (false, memo)
-               end
-        | TName x _, _ =>
-          match tlookup D x with
-          | Some d1 => eq_ty f D (td_body d1) t (key :: memo)
-          | None => Ok (false, memo)
+(* innerEqualType.  Two-level fuel: `k` bounds the number of label expansions along one recursion
+   path (each expansion adds a NEW key to the memo, and keys are pairs of sub-terms of the
+   environment and of the two initial types, so at most (N+1)^2 of them), `n` bounds the structural
+   descent between two expansions (it is reset to the size of the expanded pair).  Out of fuel =
+   Hang (Go: unbounded recursion). *)
+Fixpoint eq_ty (k : nat) (D : tenv) {struct k} : nat -> sty -> sty -> list string -> eres :=
+  match k with
+  | O => fun _ _ _ _ => Hang "EqualType"
+  | S k' =>
+    fix go (n : nat) (s t : sty) (memo : list string) {struct n} : eres :=
+      match n with
+      | O => Hang "EqualType"
+      | S n' =>
+        if negb (same_ctor s t) && negb (is_name s) && negb (is_name t) then Ok (false, memo)
+        else if is_name s || is_name t then
+          let key := eq_key s t in
+          if str_mem key memo then Ok (true, memo)
+          else
+            let expand (s' t' : sty) := eq_ty k' D (S (tsize s' + tsize t')) s' t' (key :: memo) in
+            match s, t with
+            | TName x m, TName y m' =>
+              if String.eqb x y then Ok (mode_eqb m m', memo)
+              else match tlookup D x, tlookup D y with
+                   | Some d1, Some d2 => expand (td_body d1) (td_body d2)
+                   | _, _ => Ok (false, memo)
+                   end
+            | TName x _, _ =>
+              match tlookup D x with
+              | Some d1 => expand (td_body d1) t
+              | None => Ok (false, memo)
+              end
+            | _, TName y _ =>
+              match tlookup D y with
+              | Some d2 => expand s (td_body d2)
+              | None => Ok (false, memo)
+              end
+            | _, _ => Ok (false, memo)
+            end
+        else
+          match s, t with
+          | TUnit m, TUnit m' => Ok (mode_eqb m m', memo)
+          | TTensor a b m, TTensor a' b' m' | TLolli a b m, TLolli a' b' m' =>
+            if mode_eqb m m' then
+              do (r1, M1) <- go n' a a' memo;
+              if r1 then go n' b b' M1 else Ok (false, M1)
+            else Ok (false, memo)
+          | TPlus bs m, TPlus cs m' | TWith bs m, TWith cs m' =>
+            if (brs_len bs =? brs_len cs)%nat then
+              if mode_eqb m m' then
+                (fix go_brs (bs : brs) (memo : list string) {struct bs} : eres :=
+                   match bs with
+                   | BNil => Ok (true, memo)
+                   | BCons l a r =>
+                     match find_br l cs with
+                     | None => Ok (false, memo)
+                     | Some a' =>
+                       do (r1, M1) <- go n' a a' memo;
+                       if r1 then go_brs r M1 else Ok (false, M1)
+                     end
+                   end) bs memo
+              else Ok (false, memo)
+            else Ok (false, memo)
+          | TUp f1 t1 a, TUp f2 t2 a' | TDown f1 t1 a, TDown f2 t2 a' =>
+            if mode_eqb t1 t2 && mode_eqb f1 f2 then go n' a a' memo else Ok (false, memo)
+          | _, _ => Ok (false, memo)
           end
-        | _, TName y _ =>
-          match tlookup D y with
-          | Some d2 => eq_ty f D s (td_body d2) (key :: memo)
-          | None => Ok (false, memo)
-          end
-        | _, _ => Ok (false, memo)
-        end
-    else
-      match s, t with
-      | TUnit m, TUnit m' => Ok (mode_eqb m m', memo)
-      | TTensor a b m, TTensor a' b' m' | TLolli a b m, TLolli a' b' m' =>
-        if mode_eqb m m' then
-          do (r1, M1) <- eq_ty f D a a' memo;
-          if r1 then eq_ty f D b b' M1 else Ok (false, M1)
-        else Ok (false, memo)
-      | TPlus bs m, TPlus cs m' | TWith bs m, TWith cs m' =>
-        if (brs_len bs =? brs_len cs)%nat then
-          if mode_eqb m m' then eq_brs f D bs cs memo else Ok (false, memo)
-        else Ok (false, memo)
-      | TUp f1 t1 a, TUp f2 t2 a' | TDown f1 t1 a, TDown f2 t2 a' =>
-        if mode_eqb t1 t2 && mode_eqb f1 f2 then eq_ty f D a a' memo else Ok (false, memo)
-      | _, _ => Ok (false, memo)
       end
-  end
-with eq_brs (fuel : nat) (D : tenv) (bs cs : brs) (memo : list string) : eres :=
-  match fuel with
-  | O => Hang "EqualType"
-  | S f =>
-    match bs with
-    | BNil => Ok (true, memo)
-    | BCons l a r =>
-      match find_br l cs with
-      | None => Ok (false, memo)
-      | Some a' =>
-        do (r1, M1) <- eq_ty f D a a' memo;
-        if r1 then eq_brs f D r cs M1 else Ok (false, M1)
-      end
-    end
   end.
 
-(* generous fuel: (number of name pairs + 1) * (size of everything) ; the termination theorem of
-   C08 gives the exact bound *)
+(* fuel: number of expansions <= (N+1)^2 with N the number of sub-term occurrences in play *)
 Definition eq_fuel (D : tenv) (s t : sty) : nat :=
-  let n := S (length D) in
-  let sz := S (env_size D + tsize s + tsize t) in
-  S ((n * n + 2 * n + 1) * (2 * sz + 1)).
+  let n := S (env_size D + tsize s + tsize t) in S (n * n).
 Definition equal_type (D : tenv) (s t : sty) : outcome bool :=
-  do (r, _) <- eq_ty (eq_fuel D s t) D s t []; Ok r.
+  do (r, _) <- eq_ty (eq_fuel D s t) D (S (tsize s + tsize t)) s t []; Ok r.
 
 (* ---------- well-formedness checks ---------- *)
 Fixpoint check_labels (D : tenv) (t : sty) : bool :=
@@ -193,7 +198,7 @@ Fixpoint has_dup (l : list string) : bool :=
 (* SanityChecksTypeDefinitions : Ok true = no error *)
 Definition sanity_typedefs (D : tenv) : outcome bool :=
   if has_dup (map td_name D) then Ok false
-  else if negb (forallb (fun d => check_wf D (td_body d)) D) then Ok false
+  else if negb (forallb (fun d => check_wf D (td_body d) && mode_eqb (mode_of (td_body d)) (td_mode d)) D) then Ok false
   else
     (fix go (l : tenv) : outcome bool :=
        match l with
